@@ -47,7 +47,8 @@ def ng_job(e, p):
     V = p['V']; K = p['K']; canary = p.get('canary')
     e.ng_nv = V
     modes = p['modes']          # list of K mode names, or 'choose'
-    st = e.call('nogoods::NoGoodStore::new', [V]); rs = Ref([st], 0)
+    size = p.get('size', V)     # constructor argument = number of arity buckets; the search passes the number of statements
+    st = e.call('nogoods::NoGoodStore::new', [size]); rs = Ref([st], 0)
     added = []
     seq = []
     for k in range(K):
@@ -60,11 +61,14 @@ def ng_job(e, p):
         if k == 0 and p.get('first') is not None:
             # symmetry reduction for the longest histories: the first nogood is fixed up to renaming of variables and polarity
             e.assume(a == p['first'][0]); e.assume(v == p['first'][1])
+        if size < V: e.assume(z3.Or(*[a == c for c in range(1 << V) if bin(c).count('1') <= size]))   # documented limit: arity <= size
         added.append((a, v))
         e.call('nogoods::NoGoodStore::add_ng', [rs, mk_ng(a, v)])
     ia, iv = symng(e, 'int', V, nonempty=False)
     def conc(m):
-        return {'V': V, 'modes': seq, 'nogoods': [[mint(m, a), mint(m, v)] for a, v in added], 'interp': [mint(m, ia), mint(m, iv)]}
+        c = {'V': V, 'modes': seq, 'nogoods': [[mint(m, a), mint(m, v)] for a, v in added], 'interp': [mint(m, ia), mint(m, iv)]}
+        if size != V: c['size'] = size
+        return c
     def on_panic(e_, msg):
         m = sat_model(e_, True)
         if m is not None: report(e_, 'panic', what='nogood store panics: %s' % msg[:200], case=conc(m))
@@ -154,13 +158,13 @@ def replay(ctx, v):
 
 def key(v):
     c = v['case']
-    return '%s:%s' % (v['kind'], json.dumps([c['V'], c['modes'], c['nogoods'], c['interp']]))
+    return '%s:%s' % (v['kind'], json.dumps([c['V'], c['modes'], c['nogoods'], c['interp']] + ([c['size']] if 'size' in c else [])))
 
 
 def run_concrete(eng, case):
     V = case['V']; eng.ng_nv = V
     eng.reset_path([]); eng.path_violations = []
-    st = eng.call('nogoods::NoGoodStore::new', [V]); rs = Ref([st], 0)
+    st = eng.call('nogoods::NoGoodStore::new', [case.get('size', V)]); rs = Ref([st], 0)
     for k, ((a, v), mode) in enumerate(zip(case['nogoods'], case['modes'])):
         if k == 0 or case['modes'][k - 1] != mode: eng.call('nogoods::NoGoodStore::set_dup_elem', [rs, Enum(mode, [], 'DuplicateElemination')])
         eng.call('nogoods::NoGoodStore::add_ng', [rs, mk_ng(a, v)])
@@ -219,6 +223,9 @@ def spec(ctx, tier, seed):
     # learns on an ADF without statements
     for m in MODES:
         jobs.append(Job('V2-K2-%s-with-empty' % m, mod, 'ng_job', {'V': 2, 'K': 2, 'modes': [m, m], 'allow_empty': True}, stop_after_violations=60))
+    # a store with fewer arity buckets than variables (legal while every nogood has at most `size` literals)
+    for m in (MODES if tier == 'thorough' else ['Subsume']):
+        jobs.append(Job('V3-size2-K2-%s' % m, mod, 'ng_job', {'V': 3, 'K': 2, 'modes': [m, m], 'size': 2}, stop_after_violations=60))
     jobs.append(Job('V0-K1-empty', mod, 'ng_job', {'V': 0, 'K': 1, 'modes': ['Equiv'], 'allow_empty': True}, stop_after_violations=60))
     jobs.append(Job('canary', mod, 'ng_job', {'V': 2, 'K': 1, 'modes': ['Equiv'], 'canary': 'forget'}, stop_after_violations=1, canary=True))
     return {'jobs': jobs, 'level': 'model_checking', 'allowed_status': ('ok', 'panic'),
